@@ -33,6 +33,30 @@ def attrClass (code : Nat) : Option (Bool × Bool) :=
   else if code = 7 ∨ code = 8 ∨ code = 16 ∨ code = 17 ∨ code = 18 ∨ code = 32 ∨ code = 40 ∨ code = 23 then some (true, true)
   else none
 
+/-- The same classes, one row per attribute type, each taken from the document that defines the type
+    (code, optional, transitive):
+      1 ORIGIN, 2 AS_PATH, 3 NEXT_HOP: well-known mandatory (RFC 4271 §5.1.1-5.1.3)
+      5 LOCAL_PREF, 6 ATOMIC_AGGREGATE: well-known (RFC 4271 §5.1.5, §5.1.6)
+      4 MULTI_EXIT_DISC: optional non-transitive (RFC 4271 §5.1.4)
+      7 AGGREGATOR: optional transitive (RFC 4271 §5.1.7)
+      8 COMMUNITIES: optional transitive (RFC 1997)
+      9 ORIGINATOR_ID, 10 CLUSTER_LIST: optional non-transitive (RFC 4456 §8)
+      14 MP_REACH_NLRI, 15 MP_UNREACH_NLRI: optional non-transitive (RFC 4760 §3, §4)
+      16 EXTENDED COMMUNITIES: optional transitive (RFC 4360 §2)
+      17 AS4_PATH, 18 AS4_AGGREGATOR: optional transitive (RFC 6793 §3)
+      23 TUNNEL_ENCAP: optional transitive (RFC 9012 §2)
+      26 AIGP: optional non-transitive (RFC 7311 §3)
+      29 BGP-LS: optional non-transitive (RFC 9552 §5.3)
+      32 LARGE COMMUNITY: optional transitive (RFC 8092 §3)
+      40 BGP PREFIX-SID: optional transitive (RFC 8669 §3) -/
+def rfcTable : List (Nat × Bool × Bool) :=
+  [(1, false, true), (2, false, true), (3, false, true), (5, false, true), (6, false, true),
+   (4, true, false), (7, true, true), (8, true, true), (9, true, false), (10, true, false),
+   (14, true, false), (15, true, false), (16, true, true), (17, true, true), (18, true, true),
+   (23, true, true), (26, true, false), (29, true, false), (32, true, true), (40, true, true)]
+
+def rfcClass (code : Nat) : Option (Bool × Bool) := (rfcTable.find? (·.1 == code)).map (·.2)
+
 /-- "for an optional non-transitive attribute, AS4_PATH or AS4_AGGREGATOR the route may instead be kept with
     just that attribute removed" -/
 def discardable (code : Nat) : Bool :=
@@ -102,9 +126,9 @@ def rcodes (u : CUpdate) : List Nat :=
 
 def corrIdxOk (n : Nat) : Corr → Bool
   | .flags i f => i < n && f < 256
-  | .data i d => i < n && d.length ≤ 255
+  | .data i d => i < n && d.length ≤ 4000
   | .lenfield i l => i < n && l < 65536
-  | .dup i d => i < n && d.length ≤ 255
+  | .dup i d => i < n && d.length ≤ 4000
   | .omit i => i < n
   | .trunc k => k < 65536
   | .unknown f c d => f < 256 && c < 256 && d.length ≤ 255 && attrClass c == none
@@ -329,6 +353,20 @@ def believes (attrs : List Attr) (code : Nat) (d : Bytes) : Bool :=
      | .bin b => b == d
      | .opq b => b == d)
 
+/-- the items that lie entirely inside the (truncated) block, up to the first one whose own framing is damaged: what
+    they call for does not depend on how the rest of the block is framed -/
+def soundPrefix (two : Bool) (blockLen : Nat) : List WItem → Nat → List WItem
+  | [], _ => []
+  | w :: ws, used =>
+      if used + (renderItem w).length ≤ blockLen ∧ !(itemCls two w).contains Cls.weak then
+        w :: soundPrefix two blockLen ws (used + (renderItem w).length)
+      else []
+
+/-- an attribute in front of any framing damage demands treat-as-withdraw -/
+def prefixMustTaw (c : Codec) (u : CUpdate) (cs : List Corr) : Bool :=
+  (soundPrefix c.two (blockBytes c u cs).length (blockItems c u cs) 0).any fun w =>
+    (itemCls c.two w).any fun k => k == Cls.taw || k == Cls.tawOrReset
+
 def allClasses (c : Codec) (u : CUpdate) (cs : List Corr) : List Cls :=
   let legacyNlri := !u.nlri.isEmpty
   let announces := legacyNlri || u.mpr.isSome
@@ -345,8 +383,10 @@ def check (c : Codec) (ebgp : Bool) (u : CUpdate) (cs : List Corr) (obs : URes) 
     match obs with
     | .panic => .fail "panic"
     | .more => .fail "need-more-on-a-complete-frame"
-    | .reset _ =>
-        if weak || cls.contains .tawOrReset then .ok
+    | .reset e =>
+        -- the frame is a well-framed UPDATE: a reset must be an UPDATE Message Error (RFC 4271 §6.3)
+        if e.code != 3 then .fail "session-reset-with-a-notification-that-is-not-an-update-error"
+        else if weak || cls.contains .tawOrReset then .ok
         else .fail "session-reset-although-the-nlri-can-be-located-and-parsed"
     | .ok msgs =>
         let reaches := reachMsgs msgs
@@ -355,7 +395,12 @@ def check (c : Codec) (ebgp : Bool) (u : CUpdate) (cs : List Corr) (obs : URes) 
         else
           let wLegacy := u.wd.map (padAddr · 4)
           if !allIn wLegacy (withdrawnOut msgs FAM_IPV4) then .fail "withdrawal-in-the-same-message-lost"
-          else if weak then .ok
+          else if weak then
+            -- the framing is damaged somewhere (a reset would have been acceptable); what is demanded by an attribute in
+            -- front of the damage still holds: no route may be announced
+            if prefixMustTaw c u cs && !reaches.isEmpty then
+              .fail "route-announced-although-an-attribute-before-the-framing-damage-requires-treat-as-withdraw"
+            else .ok
           else
             let aLegacy := u.nlri.map (padAddr · 4)
             let aMp := match u.mpr with
